@@ -1185,8 +1185,9 @@ func (s *Service) processRequest(m *nats.Msg, rtype, rname, method string, mh *M
 
 func (s *Service) queryEventExpire(v interface{}) {
 	qe := v.(*queryEvent)
-	qe.sub.Drain()
-	s.runWith(qe.r.Group(), func() {
-		qe.cb(nil)
-	})
+	// Once unsubscribed, no more messages are placed on the channel, and it
+	// may be closed. The listener passes on what is already received, ends
+	// the query event by calling the callback with nil, and exits.
+	qe.sub.Unsubscribe()
+	close(qe.ch)
 }
